@@ -28,29 +28,30 @@ func (o Obligation) Key() string { return o.Rule + " " + o.Construct }
 
 // Ctx is the state of one property check.
 type Ctx struct {
-	helpChecked map[*ssa.Function]bool
-	onceKeys    map[string]bool
-	lenEq       map[*types.Named]map[int][]int
-	derefVia    map[ssa.Instruction]ssa.Value
-	outcomeBusy map[*ssa.Function]bool
-	listBusy    map[*ssa.Phi]bool
-	pkgIters    []string
-	P           *Program
-	M           *Model
-	Prop        string
-	Tier        string
-	Obls        []Obligation
-	Floors      []Floor
-	Notes       []string
-	Analysed    map[string]int
-	start       time.Time
-	walkCache   []*walkInfo
-	parseCache  []*parseSite
-	nilSafeMemo map[string]bool
-	abw         map[fieldKey]bool
-	focus       []string
-	tonl01Kinds map[string]bool
-	pkgoKinds   map[string]map[string]bool
+	helpChecked      map[*ssa.Function]bool
+	onceKeys         map[string]bool
+	pathFallbackOpen bool
+	lenEq            map[*types.Named]map[int][]int
+	derefVia         map[ssa.Instruction]ssa.Value
+	outcomeBusy      map[*ssa.Function]bool
+	listBusy         map[*ssa.Phi]bool
+	pkgIters         []string
+	P                *Program
+	M                *Model
+	Prop             string
+	Tier             string
+	Obls             []Obligation
+	Floors           []Floor
+	Notes            []string
+	Analysed         map[string]int
+	start            time.Time
+	walkCache        []*walkInfo
+	parseCache       []*parseSite
+	nilSafeMemo      map[string]bool
+	abw              map[fieldKey]bool
+	focus            []string
+	tonl01Kinds      map[string]bool
+	pkgoKinds        map[string]map[string]bool
 }
 
 type Floor struct {
